@@ -509,3 +509,22 @@ pub proof fn lemma_c01_parse_failure(alts: Seq<Seq<Option<BoundSet>>>, rs: Seq<S
 {
     assert(conj_post(alts[k], rs[k]));
 }
+
+// ---------------------------------------------------------------- reachability (vacuity guard, positive side): the invariants have inhabitants
+pub proof fn reach_bs_wf() ensures exists|bs: BoundSet| bs_wf(bs) && bs_small(bs) && (forall|v: VKey| within(bs, v))
+{
+    let bs = BoundSet { lower: Box::new(Bound::Lower(Predicate::Unbounded)), upper: Box::new(Bound::Upper(Predicate::Unbounded)) };
+    reveal(cut_cmp);
+    assert(bs_wf(bs) && bs_small(bs) && (forall|v: VKey| within(bs, v)));
+}
+/// two overlapping intervals with a proper intersection exist (the relations binter_post / bdiff_post are not about an empty world)
+pub proof fn reach_overlap(v: Version, w: Version)
+    requires ver_cmp(v, w) == Ordering::Less
+    ensures exists|a: BoundSet, b: BoundSet| bs_wf(a) && bs_wf(b) && boverlap(a, b) && !ballows_all(a, b) && !ballows_all(b, a)
+{
+    let a = BoundSet { lower: Box::new(Bound::Lower(Predicate::Unbounded)), upper: Box::new(Bound::Upper(Predicate::Including(w))) };
+    let b = BoundSet { lower: Box::new(Bound::Lower(Predicate::Including(v))), upper: Box::new(Bound::Upper(Predicate::Unbounded)) };
+    reveal(cut_cmp);
+    lemma_k_flip(key(v), key(w));
+    assert(bs_wf(a) && bs_wf(b) && boverlap(a, b) && !ballows_all(a, b) && !ballows_all(b, a));
+}
